@@ -327,3 +327,22 @@ def transcript(ctx):
     encapsulating side (C01.transcript) — otherwise no right is ever recovered and every recaps fails."""
     from . import c01
     c01.transcript(ctx)
+
+
+@rule('C18', 'no-use-after-zeroize', configs=('default', 'p256'))
+def no_use_after_zeroize(ctx):
+    """Every (encapsulation, activated secret) pair is tried with the real session key: full_decaps does not reuse a key it has
+    already zeroized (C01.no-use-after-zeroize), otherwise only the first share can be opened and recaps silently shrinks the
+    audience to one right."""
+    from . import c01
+    n = c01.check_use_after_zeroize(ctx, ['core::primitives::full_decaps'], 'so only the first right is recovered')
+    ctx.floor(n, 1, 'zeroize calls in full_decaps')
+    ctx.ok('core::primitives::full_decaps', 'no use after zeroize', '%d zeroize call(s) examined' % n, '')
+
+
+@rule('C18', 'fresh-randomness', configs=('default', 'p256'))
+def fresh_randomness(ctx):
+    """'... under a new secret': the re-encapsulation draws from the shared generator itself, whose state advances — not from a
+    copy of it, which would make two recaps calls return the same secret and encapsulation (C16.rng-threading)."""
+    from . import c16
+    c16.rng_threading(ctx)
